@@ -6,12 +6,22 @@ class VtLong(callbacks.Plugin):
     TEXT = ''
     KW = {}      # keywords of vtlong's reply
     KW2 = {}     # keywords of vtarg's reply (the outer command of `vtarg [vtlong]`)
+    TEXT0 = ''   # vttwo: text and keywords of the reply made BEFORE the stored one, in the same invocation
+    KW0 = {}
     def vtlong(self, irc, msg, args):
         """takes no arguments
 
         Replies with the stored text."""
         irc.reply(VtLong.TEXT, **VtLong.KW)
     vtlong = wrap(vtlong)
+
+    def vttwo(self, irc, msg, args):
+        """takes no arguments
+
+        Replies twice in one invocation: first TEXT0 (KW0), then the stored text."""
+        irc.reply(VtLong.TEXT0, **VtLong.KW0)
+        irc.reply(VtLong.TEXT, **VtLong.KW)
+    vttwo = wrap(vttwo)
 
     def vterr(self, irc, msg, args):
         """takes no arguments
